@@ -23,17 +23,41 @@ fn receive_part() -> String {
     )
 }
 
-fn child_doc(dm: &str) -> String {
+/// grand-child G: invoked by the child C (which is itself an invoked session)
+fn grandchild_doc(dm: &str) -> String {
     format!(
-        r##"<scxml xmlns="http://www.w3.org/2005/07/scxml" version="1.0" name="C" datamodel="{dm}" initial="c">
- <datamodel><data id="cv" expr="9"/></datamodel>
- <state id="c">
-  <onentry><script>mark('hello')</script><send event="m.c1" target="#_parent"><param name="from" expr="'child'"/><param name="cv" expr="cv"/></send>
-   <send event="m.c2" targetexpr="'#_' + 'parent'" type="scxml"><content>child content</content></send></onentry>
+        r##"<scxml xmlns="http://www.w3.org/2005/07/scxml" version="1.0" name="G" datamodel="{dm}" initial="g">
+ <datamodel><data id="B" expr="0"/></datamodel>
+ <state id="g">
+  <onentry><script>mark('hello-g')</script><send event="m.g1" target="#_parent"><param name="from" expr="'grandchild'"/></send>
+   <send event="m.g2" targetexpr="'#_scxml_' + B"><param name="from" expr="'grandchild'"/></send></onentry>
+  <transition event="chain"><script>{p}</script><send event="chain" targetexpr="'#_scxml_' + B"><param name="a" expr="_event.data.a"/></send></transition>
 {recv}
  </state>
 </scxml>"##,
         dm = dm,
+        p = EVP,
+        recv = receive_part()
+    )
+}
+
+fn child_doc(dm: &str) -> String {
+    format!(
+        r##"<scxml xmlns="http://www.w3.org/2005/07/scxml" version="1.0" name="C" datamodel="{dm}" initial="c">
+ <datamodel><data id="cv" expr="9"/><data id="B" expr="0"/></datamodel>
+ <state id="c">
+  <onentry><script>mark('hello')</script><send event="m.c1" target="#_parent"><param name="from" expr="'child'"/><param name="cv" expr="cv"/></send>
+   <send event="m.c2" targetexpr="'#_' + 'parent'" type="scxml"><content>child content</content></send>
+   <send event="m.c3" targetexpr="'#_scxml_' + B"><param name="from" expr="'child'"/></send></onentry>
+  <invoke id="gkid" namelist="B"><content>{grandchild}</content></invoke>
+  <transition event="m.g1"><script>{p}</script><send event="reply.m.g1" targetexpr="_event.origin" typeexpr="_event.origintype"/><send event="m.c4" target="#_gkid"><param name="from" expr="'child'"/></send></transition>
+  <transition event="chain"><script>{p}</script><send event="chain" target="#_gkid"><param name="a" expr="_event.data.a"/></send></transition>
+{recv}
+ </state>
+</scxml>"##,
+        dm = dm,
+        p = EVP,
+        grandchild = grandchild_doc(dm),
         recv = receive_part()
     )
 }
@@ -43,7 +67,9 @@ fn parent_doc(dm: &str, bid: u32) -> String {
         r##"<scxml xmlns="http://www.w3.org/2005/07/scxml" version="1.0" name="A" datamodel="{dm}" initial="s">
  <datamodel><data id="v" expr="5"/><data id="w" expr="'str'"/><data id="B" expr="{bid}"/><data id="gen" expr="''"/><data id="gen2" expr="''"/></datamodel>
  <state id="s">
-  <invoke id="kid"><content>{child}</content></invoke>
+  <invoke id="kid" namelist="B"><content>{child}</content></invoke>
+  <transition event="cmd.19"><send event="chain" target="#_kid"><param name="a" expr="_sessionid"/></send></transition>
+  <transition event="chain.done"><script>{p}</script></transition>
   <transition event="cmd.1"><send event="m.a1"/></transition>
   <transition event="cmd.2"><send event="mi.a2" target="#_internal"><param name="p" expr="v"/></send></transition>
   <transition event="cmd.3"><send event="m.a3" target="#_scxml_{bid}" type="scxml"><param name="p" expr="v"/><param name="q" expr="w"/></send></transition>
@@ -70,6 +96,7 @@ fn parent_doc(dm: &str, bid: u32) -> String {
         scxml = SCXML_TYPE,
         nested = if dm == "ecmascript" { "({k: [1, {z: 2}], s: 'x'})" } else { "{'k': [1, {'z': 2}], 's': 'x'}" },
         child = child_doc(dm),
+        p = EVP,
         recv = receive_part()
     )
 }
@@ -78,10 +105,12 @@ fn sibling_doc(dm: &str) -> String {
     format!(
         r##"<scxml xmlns="http://www.w3.org/2005/07/scxml" version="1.0" name="B" datamodel="{dm}" initial="b">
  <state id="b">
+  <transition event="chain"><script>{p}</script><send event="chain.done" targetexpr="'#_scxml_' + _event.data.a"/></transition>
 {recv}
  </state>
 </scxml>"##,
         dm = dm,
+        p = EVP,
         recv = receive_part()
     )
 }
@@ -105,7 +134,10 @@ fn loose(a: &V, b: &V) -> bool {
 
 struct Want {
     name: &'static str,
-    session: char, // 'A' | 'B' | 'C'
+    session: char, // 'A' | 'B' | 'C' | 'G' (grand-child, invoked by C)
+    /// the statement does not say whether an event that an invoked session sends to a third party carries the
+    /// invoke id: not judged on those routes
+    skip_invokeid: bool,
     internal: bool,
     origin_of: Option<char>,
     sendid: Option<&'static str>,
@@ -130,7 +162,7 @@ fn routing(dm: &str, rep: &mut Report) {
     wait_stable(&mut a, 2); // m.c1, m.c2 from the child
     let aid = a.session.session_id;
     let mut sent = 2;
-    for k in [1, 2, 3, 4, 5, 6, 7, 8, 9, 10, 14, 15, 16, 17, 18, 11, 12, 13] {
+    for k in [1, 2, 3, 4, 5, 6, 7, 8, 9, 10, 14, 15, 16, 17, 18, 11, 12, 13, 19] {
         a.send(&format!("cmd.{}", k));
         sent += 1;
         wait_stable(&mut a, sent);
@@ -138,14 +170,23 @@ fn routing(dm: &str, rep: &mut Report) {
     // Fences: cmd.11..13 send one more event along each route (A->A, A->B->A, A->kid->A).  The
     // queues are FIFO per producer, so once A has processed the three fence replies every earlier
     // event and reply on those routes has been delivered.  The watchdog only yields "inconclusive".
+    // cmd.19 sends `chain` along A -> kid -> grand-child -> B -> A (`chain.done`): when it is back, every event
+    // sent earlier on those hops has been delivered too.  If it does not come back, an event was lost on that route
+    // (or the machine is very slow): then only what the *terminated* sessions prove is judged (see below).
     let t0 = std::time::Instant::now();
+    let mut chain_back = false;
     loop {
         let l = rec::snapshot_log();
         let got = |n: &str| l.iter().any(|e| matches!(&e.ev, Ev::XRecv(ev) if ev.name == n));
-        if got("reply.m.fenceA") && got("reply.m.fenceB") && got("reply.m.fenceC") {
+        let basic = got("reply.m.fenceA") && got("reply.m.fenceB") && got("reply.m.fenceC");
+        if basic && got("chain.done") {
+            chain_back = true;
             break;
         }
         if t0.elapsed() > Duration::from_secs(90) {
+            if basic {
+                break;
+            }
             rep.inconclusive(&format!("[{}] the fence replies did not all arrive within the watchdog", dm));
             a.finish();
             b.finish();
@@ -160,10 +201,34 @@ fn routing(dm: &str, rep: &mut Report) {
         Ev::Mark { tag, session, parent_session, .. } if tag == "hello" && *parent_session == Some(aid) => Some((*session, e.tid)),
         _ => None,
     });
+    let grandchild = log.iter().find_map(|e| match &e.ev {
+        Ev::Mark { tag, session, .. } if tag == "hello-g" => Some((*session, e.tid)),
+        _ => None,
+    });
+    // A ends (its cancel reaches the child and, through it, the grand-child: each processes its queue up to the
+    // cancel event, in FIFO order), then B.  Afterwards the log is complete for everything sent before.
     a.finish();
+    let btr = b.tracer;
+    let others_ended = {
+        let t1 = std::time::Instant::now();
+        loop {
+            let pending = rec::session_threads_of().iter().filter(|(tr, fin)| *tr != btr && !*fin).count();
+            if pending == 0 {
+                break true;
+            }
+            if t1.elapsed() > Duration::from_secs(90) {
+                break false;
+            }
+            std::thread::sleep(Duration::from_millis(5));
+        }
+    };
     b.finish();
     let log = rec::take_log();
     let w = json!({"datamodel": dm, "parent_xml": xml});
+    if !chain_back && !others_ended {
+        rep.inconclusive(&format!("[{}] the chain fence did not return and the sessions did not end within the watchdog", dm));
+        return;
+    }
     let (cid, ctid) = match child {
         Some(c) => c,
         None => {
@@ -171,9 +236,17 @@ fn routing(dm: &str, rep: &mut Report) {
             return;
         }
     };
+    let (gid, gtid) = match grandchild {
+        Some(g) => g,
+        None => {
+            rep.violation("grandchild-not-started", &format!("[{}] the session invoked by the invoked child never ran", dm), w);
+            return;
+        }
+    };
     let sid_of = |c: char| match c {
         'A' => aid,
         'B' => bid,
+        'G' => gid,
         _ => cid,
     };
     let map = |pairs: &[(&str, V)]| -> V {
@@ -185,31 +258,42 @@ fn routing(dm: &str, rep: &mut Report) {
     };
     let nested = map(&[("k", V::Arr(vec![V::Int(1), map(&[("z", V::Int(2))])])), ("s", V::Str("x".into()))]);
     let wants = vec![
-        Want { name: "m.c1", session: 'A', internal: false, origin_of: Some('C'), sendid: None, data: Some(map(&[("from", V::Str("child".into())), ("cv", V::Int(9))])), invokeid: true },
-        Want { name: "m.c2", session: 'A', internal: false, origin_of: Some('C'), sendid: None, data: Some(V::Str("child content".into())), invokeid: true },
-        Want { name: "m.a1", session: 'A', internal: false, origin_of: Some('A'), sendid: None, data: None, invokeid: false },
-        Want { name: "mi.a2", session: 'A', internal: true, origin_of: None, sendid: None, data: Some(map(&[("p", V::Int(5))])), invokeid: false },
-        Want { name: "m.a3", session: 'B', internal: false, origin_of: Some('A'), sendid: None, data: Some(map(&[("p", V::Int(5)), ("q", V::Str("str".into()))])), invokeid: false },
-        Want { name: "m.a4", session: 'B', internal: false, origin_of: Some('A'), sendid: None, data: Some(map(&[("v", V::Int(5)), ("w", V::Str("str".into()))])), invokeid: false },
-        Want { name: "m.a5", session: 'C', internal: false, origin_of: Some('A'), sendid: None, data: Some(V::Str("literal content".into())), invokeid: false },
-        Want { name: "m.a6", session: 'C', internal: false, origin_of: Some('A'), sendid: None, data: Some(V::Int(6)), invokeid: false },
-        Want { name: "m.a7", session: 'B', internal: false, origin_of: Some('A'), sendid: None, data: None, invokeid: false },
-        Want { name: "m.a8", session: 'B', internal: false, origin_of: Some('A'), sendid: Some("<generated>"), data: None, invokeid: false },
-        Want { name: "m.a9", session: 'B', internal: false, origin_of: Some('A'), sendid: Some("explicit-id"), data: None, invokeid: false },
-        Want { name: "mi.a10", session: 'A', internal: true, origin_of: None, sendid: None, data: None, invokeid: false },
+        Want { skip_invokeid: false, name: "m.c1", session: 'A', internal: false, origin_of: Some('C'), sendid: None, data: Some(map(&[("from", V::Str("child".into())), ("cv", V::Int(9))])), invokeid: true },
+        Want { skip_invokeid: false, name: "m.c2", session: 'A', internal: false, origin_of: Some('C'), sendid: None, data: Some(V::Str("child content".into())), invokeid: true },
+        Want { skip_invokeid: false, name: "m.a1", session: 'A', internal: false, origin_of: Some('A'), sendid: None, data: None, invokeid: false },
+        Want { skip_invokeid: false, name: "mi.a2", session: 'A', internal: true, origin_of: None, sendid: None, data: Some(map(&[("p", V::Int(5))])), invokeid: false },
+        Want { skip_invokeid: false, name: "m.a3", session: 'B', internal: false, origin_of: Some('A'), sendid: None, data: Some(map(&[("p", V::Int(5)), ("q", V::Str("str".into()))])), invokeid: false },
+        Want { skip_invokeid: false, name: "m.a4", session: 'B', internal: false, origin_of: Some('A'), sendid: None, data: Some(map(&[("v", V::Int(5)), ("w", V::Str("str".into()))])), invokeid: false },
+        Want { skip_invokeid: false, name: "m.a5", session: 'C', internal: false, origin_of: Some('A'), sendid: None, data: Some(V::Str("literal content".into())), invokeid: false },
+        Want { skip_invokeid: false, name: "m.a6", session: 'C', internal: false, origin_of: Some('A'), sendid: None, data: Some(V::Int(6)), invokeid: false },
+        Want { skip_invokeid: false, name: "m.a7", session: 'B', internal: false, origin_of: Some('A'), sendid: None, data: None, invokeid: false },
+        Want { skip_invokeid: false, name: "m.a8", session: 'B', internal: false, origin_of: Some('A'), sendid: Some("<generated>"), data: None, invokeid: false },
+        Want { skip_invokeid: false, name: "m.a9", session: 'B', internal: false, origin_of: Some('A'), sendid: Some("explicit-id"), data: None, invokeid: false },
+        Want { skip_invokeid: false, name: "mi.a10", session: 'A', internal: true, origin_of: None, sendid: None, data: None, invokeid: false },
         // namelist and <param> together: both contribute
-        Want { name: "m.a16", session: 'B', internal: false, origin_of: Some('A'), sendid: None, data: Some(map(&[("v", V::Int(5)), ("q", V::Str("str".into()))])), invokeid: false },
-        Want { name: "mi.a17", session: 'A', internal: true, origin_of: None, sendid: None, data: Some(map(&[("w", V::Str("str".into())), ("v", V::Int(5)), ("z", V::Int(6))])), invokeid: false },
-        Want { name: "m.a18", session: 'C', internal: false, origin_of: Some('A'), sendid: None, data: Some(map(&[("w", V::Str("str".into())), ("p", V::Int(5)), ("q", V::Int(7))])), invokeid: false },
+        Want { skip_invokeid: false, name: "m.a16", session: 'B', internal: false, origin_of: Some('A'), sendid: None, data: Some(map(&[("v", V::Int(5)), ("q", V::Str("str".into()))])), invokeid: false },
+        Want { skip_invokeid: false, name: "mi.a17", session: 'A', internal: true, origin_of: None, sendid: None, data: Some(map(&[("w", V::Str("str".into())), ("v", V::Int(5)), ("z", V::Int(6))])), invokeid: false },
+        Want { skip_invokeid: false, name: "m.a18", session: 'C', internal: false, origin_of: Some('A'), sendid: None, data: Some(map(&[("w", V::Str("str".into())), ("p", V::Int(5)), ("q", V::Int(7))])), invokeid: false },
         // nested payloads keep their structure, also when relayed by the receiver
-        Want { name: "relay.a14", session: 'B', internal: false, origin_of: Some('A'), sendid: None, data: Some(map(&[("o", nested.clone())])), invokeid: false },
-        Want { name: "relay.a15", session: 'C', internal: false, origin_of: Some('A'), sendid: None, data: Some(map(&[("o", nested.clone())])), invokeid: false },
+        Want { skip_invokeid: false, name: "relay.a14", session: 'B', internal: false, origin_of: Some('A'), sendid: None, data: Some(map(&[("o", nested.clone())])), invokeid: false },
+        Want { skip_invokeid: false, name: "relay.a15", session: 'C', internal: false, origin_of: Some('A'), sendid: None, data: Some(map(&[("o", nested.clone())])), invokeid: false },
         // reply legs: the reply to an event reaches the original sender
-        Want { name: "reply.m.c1", session: 'C', internal: false, origin_of: Some('A'), sendid: None, data: None, invokeid: false },
-        Want { name: "reply.m.a3", session: 'A', internal: false, origin_of: Some('B'), sendid: None, data: None, invokeid: false },
-        Want { name: "reply.m.a4", session: 'A', internal: false, origin_of: Some('B'), sendid: None, data: None, invokeid: false },
-        Want { name: "reply.m.a5", session: 'A', internal: false, origin_of: Some('C'), sendid: None, data: None, invokeid: true },
-        Want { name: "reply.m.a1", session: 'A', internal: false, origin_of: Some('A'), sendid: None, data: None, invokeid: false },
+        Want { skip_invokeid: false, name: "reply.m.c1", session: 'C', internal: false, origin_of: Some('A'), sendid: None, data: None, invokeid: false },
+        Want { skip_invokeid: false, name: "reply.m.a3", session: 'A', internal: false, origin_of: Some('B'), sendid: None, data: None, invokeid: false },
+        Want { skip_invokeid: false, name: "reply.m.a4", session: 'A', internal: false, origin_of: Some('B'), sendid: None, data: None, invokeid: false },
+        Want { skip_invokeid: false, name: "reply.m.a5", session: 'A', internal: false, origin_of: Some('C'), sendid: None, data: None, invokeid: true },
+        Want { skip_invokeid: false, name: "reply.m.a1", session: 'A', internal: false, origin_of: Some('A'), sendid: None, data: None, invokeid: false },
+        // an invoked session addresses a third session by id, and gets the reply
+        Want { skip_invokeid: true, name: "m.c3", session: 'B', internal: false, origin_of: Some('C'), sendid: None, data: Some(map(&[("from", V::Str("child".into()))])), invokeid: false },
+        Want { skip_invokeid: true, name: "reply.m.c3", session: 'C', internal: false, origin_of: Some('B'), sendid: None, data: None, invokeid: false },
+        // three levels: the child (itself invoked) and the session it invokes
+        Want { skip_invokeid: false, name: "m.g1", session: 'C', internal: false, origin_of: Some('G'), sendid: None, data: Some(map(&[("from", V::Str("grandchild".into()))])), invokeid: true },
+        Want { skip_invokeid: true, name: "reply.m.g1", session: 'G', internal: false, origin_of: Some('C'), sendid: None, data: None, invokeid: false },
+        Want { skip_invokeid: true, name: "m.c4", session: 'G', internal: false, origin_of: Some('C'), sendid: None, data: Some(map(&[("from", V::Str("child".into()))])), invokeid: false },
+        Want { skip_invokeid: false, name: "reply.m.c4", session: 'C', internal: false, origin_of: Some('G'), sendid: None, data: None, invokeid: true },
+        Want { skip_invokeid: true, name: "m.g2", session: 'B', internal: false, origin_of: Some('G'), sendid: None, data: Some(map(&[("from", V::Str("grandchild".into()))])), invokeid: false },
+        Want { skip_invokeid: true, name: "reply.m.g2", session: 'G', internal: false, origin_of: Some('B'), sendid: None, data: None, invokeid: false },
+        Want { skip_invokeid: true, name: "chain.done", session: 'A', internal: false, origin_of: Some('B'), sendid: None, data: None, invokeid: false },
     ];
     // receptions per (session via thread), from tracer entries
     let tid_of_tracer = |tr: u32| log.iter().find(|e| e.tracer == tr).map(|e| e.tid);
@@ -222,6 +306,8 @@ fn routing(dm: &str, rep: &mut Report) {
             Some('B')
         } else if t == ctid {
             Some('C')
+        } else if t == gtid {
+            Some('G')
         } else {
             None
         }
@@ -314,7 +400,7 @@ fn routing(dm: &str, rep: &mut Report) {
                 }
             }
         }
-        if wnt.invokeid != ev.invokeid.is_some() {
+        if !wnt.skip_invokeid && wnt.invokeid != ev.invokeid.is_some() {
             rep.violation(&format!("invokeid:{}", wnt.name), &format!("[{}] {} carries invokeid {:?}", dm, wnt.name, ev.invokeid), w.clone());
         }
         if wnt.name == "m.a7" {
@@ -335,6 +421,23 @@ fn routing(dm: &str, rep: &mut Report) {
                 }
                 None => rep.violation(&format!("payload:{}", wnt.name), &format!("[{}] {} was received but not seen by the _event probe", dm, wnt.name), w.clone()),
             }
+        }
+    }
+    // the chain event travels A -> C -> G -> B: one reception per hop
+    {
+        rep.evaluations += 1;
+        let mut hops: Vec<char> = receptions.get("chain").map(|v| v.iter().map(|r| r.0).collect()).unwrap_or_default();
+        hops.sort();
+        if hops != vec!['B', 'C', 'G'] {
+            let missing: Vec<String> = ['C', 'G', 'B'].iter().filter(|h| !hops.contains(h)).map(|h| h.to_string()).collect();
+            rep.violation(
+                &format!("event-not-delivered:chain:{}", if missing.is_empty() { "duplicate".to_string() } else { missing.join("") }),
+                &format!("[{}] the event forwarded A -> child (#_kid) -> grand-child (#_gkid) -> B (#_scxml_id) was received by {:?}, expected once each by C, G and B (all sessions had ended: their queues were drained)", dm, hops),
+                w.clone(),
+            );
+        } else {
+            rep.count("chain_hops_delivered", 3);
+            rep.nontrivial_key(&format!("{}:chain", dm));
         }
     }
     // relayed nested payloads: A receives m.relayed twice (from B and from the child), both intact;
